@@ -92,7 +92,8 @@ def _generate_unquoted_parts(string, only_printable=False, unsafe=None):
     yield string[previous_match_end:]  # Non-ASCII tail
 
 
-C1_CONTROL_CHARS_RE = re.compile("[\x80-\x9f]")
+# C1 control characters and any whitespace that is not the plain space
+C1_CONTROL_CHARS_RE = re.compile("[\x80-\x9f]|[^\\S ]")
 
 
 def _quote_match(match):
@@ -111,8 +112,9 @@ def unquote(string, only_printable=False, unsafe=None, normalize_space=False):
         _generate_unquoted_parts(string, only_printable=only_printable, unsafe=unsafe)
     )
 
-    # NOTE: C1 control characters are encoded on two bytes and can therefore
-    # only be spotted once the string has been decoded
+    # NOTE: C1 control characters and exotic whitespace (that stripping the
+    # url would eat) are encoded on several bytes and can therefore only be
+    # spotted once the string has been decoded
     if only_printable:
         q = C1_CONTROL_CHARS_RE.sub(_quote_match, q)
 
